@@ -1403,14 +1403,66 @@ Definition no_call_left_hanging (ops : list op) : Prop :=
     | _ => True
     end.
 
+(* the op-list hypothesis implies the state-level fact: nothing is ever recorded as lost *)
+Lemma lost_step s o :
+  (loop_ended (fst (step s o)) = true -> loop_ended s = true \/ o = LoopEnd) /\
+  ((loop_ended s = false \/ (forall k, o <> ThreadLand k) /\ (forall k, o <> CancelLand k)) ->
+   lost_calls (fst (step s o)) = lost_calls s /\ lost_cancels (fst (step s o)) = lost_cancels s).
+Proof.
+  split.
+  - destruct (loop_ended s) eqn:E; [auto|]. intros H. right.
+    destruct o; try reflexivity; exfalso; revert H; cbn [step];
+      repeat match goal with |- context [match ?x with _ => _ end] => destruct x eqn:? end; cbn; congruence.
+  - intros H. destruct o; cbn [step];
+      repeat match goal with |- context [match ?x with _ => _ end] => destruct x eqn:? end; cbn; auto;
+      destruct H as [H|[H1 H2]]; try congruence; exfalso; [eapply H1|eapply H2]; reflexivity.
+Qed.
+
+Lemma no_land_after_sound ops : forall s ended,
+  (loop_ended s = true -> ended = true) -> lost_calls s = [] -> lost_cancels s = [] ->
+  no_land_after ended ops = true ->
+  lost_calls (final step s ops) = [] /\ lost_cancels (final step s ops) = [].
+Proof.
+  induction ops as [|o r IH]; intros s ended He H1 H2 Hn; [auto|].
+  change (final step s (o :: r)) with (final step (fst (step s o)) r).
+  destruct (lost_step s o) as [L1 L2].
+  assert (Hkeep : lost_calls (fst (step s o)) = [] /\ lost_cancels (fst (step s o)) = []).
+  { destruct (loop_ended s) eqn:El.
+    - rewrite (He eq_refl) in Hn.
+      destruct L2 as [E1 E2]; [|rewrite E1, E2; auto]. right.
+      split; intros k ->; cbn in Hn; discriminate.
+    - destruct L2 as [E1 E2]; [auto|rewrite E1, E2; auto]. }
+  destruct Hkeep as [K1 K2].
+  assert (Go : forall e, (loop_ended (fst (step s o)) = true -> e = true) -> no_land_after e r = true ->
+                         lost_calls (final step (fst (step s o)) r) = [] /\ lost_cancels (final step (fst (step s o)) r) = []).
+  { intros e He' Hn'. apply (IH _ e); assumption. }
+  assert (Hsame : o <> LoopEnd -> loop_ended (fst (step s o)) = true -> ended = true).
+  { intros Hno Hl. destruct (L1 Hl) as [Hl'|Hl']; [auto|]. exfalso. apply Hno, Hl'. }
+  destruct o; cbn [no_land_after] in Hn.
+  1, 3, 4, 5, 7, 8, 9: apply (Go ended); [apply Hsame; discriminate|exact Hn].
+  - destruct ended; [discriminate|]. apply (Go false); [apply Hsame; discriminate|exact Hn].
+  - destruct ended; [discriminate|]. apply (Go false); [apply Hsame; discriminate|exact Hn].
+  - apply (Go true); [reflexivity|exact Hn].
+Qed.
+
+Theorem portal_no_land_after_loop_end_sound ops :
+  no_land_after_loop_end ops = true -> landed_after_loop_end ops = false.
+Proof.
+  intros H. unfold landed_after_loop_end, lost_any.
+  destruct (no_land_after_sound ops (init true true true) false) as [E1 E2]; try reflexivity; try exact H.
+  - cbn. discriminate.
+  - rewrite E1, E2. reflexivity.
+Qed.
+
 Theorem portal_no_call_left_hanging ops : no_land_after_loop_end ops = true -> no_call_left_hanging ops.
 Proof.
-  unfold no_land_after_loop_end, landed_after_loop_end, lost_any, no_call_left_hanging.
+  intros Hsyn. apply portal_no_land_after_loop_end_sound in Hsyn. revert Hsyn.
+  unfold landed_after_loop_end, lost_any, no_call_left_hanging.
   set (s := final step (init true true true) ops). intros H.
   assert (R : reach true true s) by apply reach_final.
   pose proof (reach_inv _ _ _ R) as I.
   assert (Hfn : fn_fixed s = true) by (destruct (final_flags ops (init true true true)) as (_ & _ & E); exact E).
-  apply Bool.negb_true_iff, Bool.negb_false_iff, andb_prop in H. destruct H as [H1 H2].
+  apply Bool.negb_false_iff, andb_prop in H. destruct H as [H1 H2].
   apply is_nil_true in H1. apply is_nil_true in H2. split; [exact H2|].
   intros k. destruct (c_phase (calls s k)) eqn:Ep; auto.
   1-4: intros Hh; destruct (portal_exit_joins true s R Hh) as [_ Hall];
@@ -1426,12 +1478,12 @@ Definition f40_witness : list op :=
   [ThreadIssue 0 KCoro; HostExit false; ResumeHost; LoopEnd; ThreadLand 0].
 
 Theorem portal_landed_after_loop_end_refuted :
-  exists ops, landed_after_loop_end ops = true /\ ~ no_call_left_hanging ops /\
+  exists ops, no_land_after_loop_end ops = false /\ landed_after_loop_end ops = true /\ ~ no_call_left_hanging ops /\
     let s := final step (init true true true) ops in
     c_phase (calls s 0) = PLost /\ c_execs (calls s 0) = 0 /\ c_fut (calls s 0) = CPending /\
     forall ops', calls (final step s ops') 0 = calls s 0.
 Proof.
-  exists f40_witness. split; [vm_compute; reflexivity|]. split.
+  exists f40_witness. split; [vm_compute; reflexivity|]. split; [vm_compute; reflexivity|]. split.
   - intros [_ H]. specialize (H 0). vm_compute in H. exact H.
   - cbv zeta. set (s := final step (init true true true) f40_witness).
     assert (Hp : c_phase (calls s 0) = PLost) by (vm_compute; reflexivity).
@@ -1458,8 +1510,12 @@ Proof. vm_compute. repeat split. Qed.
 
 (* non-vacuity of the hypothesis: a history in which the loop ends, with calls before and after, and no late hand-over *)
 Example ex_no_land_after_loop_end_hyp :
-  let ops := ex_ops1 ++ [LoopEnd; ThreadIssue 2 KSync] in
-  no_land_after_loop_end ops = true /\ loop_ended (final step (init true true true) ops) = true /\
+  let ops := ex_ops1 ++ [LoopEnd; ThreadIssue 2 KSync; FutureCancel 0; Stop false; ThreadIssue 3 KCoro] in
+  no_land_after_loop_end ops = true /\ landed_after_loop_end ops = false /\
+  loop_ended (final step (init true true true) ops) = true /\
   c_phase (calls (final step (init true true true) ops) 2) = PRefused /\
-  c_phase (calls (final step (init true true true) ops) 0) = PReaped.
+  c_phase (calls (final step (init true true true) ops) 3) = PRefused /\
+  c_phase (calls (final step (init true true true) ops) 0) = PReaped /\
+  host (final step (init true true true) ops) = HLeft.
 Proof. vm_compute. repeat split. Qed.
+
